@@ -121,7 +121,14 @@ def c04(ctx, res):
                         "encoding/xml RawToken as tokenizer of the indented outputs"]
 
 
+def c05(ctx, res):
+    ctx.gen_replay(res, "esc", "MC_C05.tla", "MC_C05_quick.cfg" if ctx.quick else "MC_C05_thorough.cfg", procs=8)
+    res.assumptions += ["encoding/xml as the definition of well-formed XML (oracle of the escaping-off / validity-check-on clause)",
+                        "decoder-side clause read semantically: numeric references such as &#x41; come back as the character they denote"]
+
+
 PROPS = {
+    "C05": c05,
     "C04": c04,
     "C02": c02,
     "C03": c03,
